@@ -13,6 +13,9 @@ from . import hooks
 from .gen.mol import VAL
 
 RECORDS = []          # list of dict(prop, clause, msg)
+# set by a workload that knows its input text contains no explicitly written hydrogen atom ('[H'):
+# then every hydrogen of the result must be a completed one
+CONTEXT = {'explicit_h_possible': True}
 STATS = collections.Counter()
 INTERNAL_KEYS = {'element', 'aromatic', 'charge', 'hcount', 'fragname', 'fragid', 'bonding', 'atomname',
                  'ez_isomer_class', 'ez_isomer_atoms', 'ez_isomer', 'single_h_frag', 'class', 'isotope',
@@ -300,10 +303,11 @@ def _check(pre, cg, aa):
                 continue
             hv = sum(e.get('order', 1) for _, x, e in aa.edges(n, data=True) if aa.nodes[x].get('element') != 'H')
             # hydrogens written explicitly in a template are kept as written; only the completed ones are the resolver's choice
+            explicit_ok = CONTEXT['explicit_h_possible']
             h_written = sum(e.get('order', 1) for _, x, e in aa.edges(n, data=True)
-                            if aa.nodes[x].get('element') == 'H' and aa.nodes[x].get('mapping'))
+                            if aa.nodes[x].get('element') == 'H' and aa.nodes[x].get('mapping') and explicit_ok)
             nh = sum(e.get('order', 1) for _, x, e in aa.edges(n, data=True)
-                     if aa.nodes[x].get('element') == 'H' and not aa.nodes[x].get('mapping'))
+                     if aa.nodes[x].get('element') == 'H' and not (aa.nodes[x].get('mapping') and explicit_ok))
             vals = VAL.get((el, d.get('charge', 0)))
             if not vals:
                 STATS['valence_unknown_element'] += 1
